@@ -604,11 +604,18 @@ static sb_error_t sb_i_poly_solve_4d(const sb_poly_t* poly, float rhs, float* ro
         return sb_i_poly_solve_3d(poly, rhs, roots, num_roots); /* LCOV_EXCL_LINE */
     }
 
-    /* We are solving the equation ax^3 + bx^2 + cx + d = 0 */
-    float p = (3 * a * c - b * b) / (3 * a * a);
-    float q = (2 * b * b * b - 9 * a * b * c + 27 * a * a * d) / (27 * a * a * a);
+    /* We are solving the equation ax^3 + bx^2 + cx + d = 0. Divide by the
+     * leading coefficient first: powers of a under- or overflow for very small
+     * or very large coefficients although the roots do not depend on their
+     * common scale */
+    b /= a;
+    c /= a;
+    d /= a;
+
+    float p = (3 * c - b * b) / 3;
+    float q = (2 * b * b * b - 9 * b * c + 27 * d) / 27;
     float delta = (q * q) / 4 + (p * p * p) / 27;
-    float offset = -b / (3 * a);
+    float offset = -b / 3;
 
     if (fabsf(delta) < 1e-8f) {
         float u = cbrtf(-q / 2);
